@@ -2,6 +2,7 @@
 
 stdin : one JSON job {"scratch": dir, "cases": [case...]}
         case = {"id", "arming": "direct"|"direct_pos"|"hook"|"ctx"|"ctx_default", "thr": 0..5,
+                "hist": ["arm"|"rm"|"enter"|"leave", ...]   (hook operations performed before the arming),
                 "kind": "bytes"|"bytearray"|"bytesio"|"file"|"nonseek"|"nonseek_noattr"|"swap"|"swap_nonseek",
                 "content": hex (whole stream), "off": int, "evil": hex|null, "prefix": hex|null}
 stdout: one JSON line per case (see run_case).
@@ -138,6 +139,44 @@ class Instr:
         return self._cur("seek").seek(pos, whence)
 
 
+class Flaky:
+    """OBSERVATION ONLY (outside the quantifier of C02): a seekable stream that serves `alt` for any
+    region that has been read before -- i.e. content that changes DURING Pickled.load, between the
+    tokeniser's read of an opcode and fickling's re-read of the same bytes"""
+
+    def __init__(self, good, alt):
+        assert len(good) == len(alt)
+        self._good, self._alt, self._pos, self._high = good, alt, 0, 0
+        self.log = []
+
+    def _take(self, n):
+        src = self._alt if self._pos < self._high else self._good
+        out = src[self._pos:self._pos + n]
+        self._pos += len(out)
+        self._high = max(self._high, self._pos)
+        return out
+
+    def read(self, n=-1):
+        self.log.append([PHASE[0], "read"])
+        return self._take(len(self._good) if n is None or n < 0 else n)
+
+    def readline(self, n=-1):
+        self.log.append([PHASE[0], "readline"])
+        src = self._alt if self._pos < self._high else self._good
+        i = src.find(b"\n", self._pos)
+        return self._take((i + 1 if i >= 0 else len(src)) - self._pos)
+
+    def tell(self):
+        return self._pos
+
+    def seekable(self):
+        return True
+
+    def seek(self, pos, whence=0):
+        self._pos = pos
+        return pos
+
+
 class NoAttr:
     """file-like object with read/readline only (no seekable attribute at all)"""
 
@@ -195,22 +234,42 @@ def make_stream(case, scratch):
     if k == "swap_nonseek":
         s = Instr(content, off, evil=evil, can_seek=False)
         return s, s, None
+    if k == "flaky":
+        s = Flaky(content, evil)
+        return s, s, None
     raise ValueError(k)
+
+
+STACK = []
+
+
+def do_history(ops):
+    for op in ops:
+        if op == "arm":
+            fickling.always_check_safety()
+        elif op == "rm":
+            fhook.remove_hook()
+        elif op == "enter":
+            cm = fickling.check_safety()
+            cm.__enter__()
+            STACK.append(cm)
+        elif op == "leave":
+            STACK.pop().__exit__(None, None, None)
+        else:
+            raise ValueError(op)
 
 
 def checked_call(case, stream):
     a = case["arming"]
     thr = SEVS[case["thr"]]
+    do_history(case.get("hist") or [])
     if a == "direct":
         return fickling.load(stream, max_acceptable_severity=thr)
     if a == "direct_pos":
         return fickling.load(stream, thr)
     if a == "hook":
         fickling.always_check_safety()
-        try:
-            return pickle.load(stream)
-        finally:
-            fhook.remove_hook()
+        return pickle.load(stream)
     if a == "ctx":
         with fcontext.FicklingContextManager(max_acceptable_severity=thr):
             return pickle.load(stream)
@@ -221,6 +280,7 @@ def checked_call(case, stream):
 
 
 def reset():
+    del STACK[:]
     pickle.load = rec_load
     pickle.loads = rec_loads
     verif_sink.reset()
@@ -285,6 +345,7 @@ def run_case(case, scratch):
     finally:
         ON[0] = False
         # whatever happened, leave no arming behind
+        del STACK[:]
         pickle.load = rec_load
         pickle.loads = rec_loads
     out["events"] = list(EVENTS)
